@@ -12,9 +12,9 @@ proved with an explicit guard (`…_partial`) and refuted on a witness (`…_cou
 * `every_call_once`   – constructs below tags whose children `extract_nodes` never visits (`<%namespace>`
                         bodies) are not handed to the finder.  (Filter lists are handed over since 5365b81:
                         the expression branch now passes `(code), (filters,)`.)
-* `reported_line`     – Babel: wrong when the code string does not start on the node's first line (F7: attributes
-                        on later lines of a tag; a filter list written on the line after the `|`);
-                        Lingua: always one line too low, and lower still by the blank lines `strip()` removes;
+* `reported_line`     – Babel and Lingua: wrong when the code string does not start on the node's first line
+                        (F7: attributes on later lines of a tag; a filter list written on the line after the `|`).
+                        (Lingua's own offset errors were repaired in ee690ea: `reported_line_lingua` is positive.)
 * `translator_comments_window` – a comment block that was not used stays pending and is attached, together
                         with a later block, to a construct further down.
 -/
@@ -73,7 +73,7 @@ theorem every_call_reported_once_lingua (finder : Finder) (cfgTags : Str) (nodes
     (extractLingua finder cfgTags nodes).map core =
       ((sites nodes).filter Site.visible).flatMap fun s =>
         (finder (linguaPrep s.text)).map fun h =>
-          ((((s.lineno : Int) - 1) - 1) + (h.line : Int), h.func, h.payload) := by
+          ((((s.lineno : Int) - 1) + (linguaSkipped s.text : Int) - 1) + (h.line : Int), h.func, h.payload) := by
   unfold extractLingua
   rw [extract_by_site _ (linguaProc finder) core]
   · simp [linguaProc, linguaMsg, core, Function.comp_def]
@@ -133,7 +133,7 @@ example : handed [] (babelProc finderFilter)
 
 /-! ## the reported line -/
 
-/- OPEN (false today, see `reported_line_counterexample` (F7) and `reported_line_lingua_counterexample`):
+/- OPEN (false today, see `reported_line_counterexample` and `reported_line_filter_counterexample` (F7)):
 
 theorem reported_line (src code : Str) (nodeStart start pos j : Nat) (ts : List Str) (h : Hit)
     (hnode : nodeStart ≤ start)                                         -- the code lies inside the node
@@ -254,17 +254,18 @@ theorem reported_line_counterexample :
     (babelMsg ((lineOf src 0 : Int) - 1) [] h).line = 1 ∧ lineOf src 17 = 2 := by
   decide
 
-/-- Lingua.  Same setting, verbatim code; the call is at offset `i` of the left-stripped code, and up to it the
-    prepared source (`strip`, fragment completion) is the left-stripped code.  The reported line is the line of
-    the call **minus one, minus the number of newlines in the whitespace `strip()` removed in front**. -/
+/-- Lingua (since ee690ea).  Verbatim code; the call is at offset `i` of the left-stripped code, and up to it the
+    prepared source (`strip`, fragment completion) is the left-stripped code.  The lines `strip()` removes in front
+    are counted (`linguaSkipped`) and added back, so – **same guard as for Babel: the code string starts on the
+    node's first line** – the reported line is the line of the call. -/
 theorem reported_line_lingua (src code : Str) (start i nodeLine : Nat) (ts : List Str) (h : Hit)
     (hembed : slice src start (start + code.length) = code)
     (hfirst : lineOf src start = nodeLine)
     (hi : i ≤ (lstrip code).length)
     (hprep : (linguaPrep code).take i = (lstrip code).take i)
     (hh : h.line = lineOf (linguaPrep code) i) :
-    (linguaMsg ((nodeLine : Int) - 1) ts h).line =
-      (lineOf src (start + (lead code).length + i) : Int) - 1 - countNL (lead code) := by
+    (linguaMsg ((nodeLine : Int) - 1) (linguaSkipped code) ts h).line =
+      lineOf src (start + (lead code).length + i) := by
   have hcode := lead_append_lstrip code
   have hlen : (lead code).length + (lstrip code).length = code.length := by
     rw [← List.length_append, hcode]
@@ -277,28 +278,19 @@ theorem reported_line_lingua (src code : Str) (start i nodeLine : Nat) (ts : Lis
   rw [hs, countNL_append] at h1
   have h2 : lineOf (linguaPrep code) i = 1 + countNL ((lstrip code).take i) := by
     simp only [lineOf, hprep]
-  simp only [linguaMsg, hh, h2, h1, ← hfirst]
+  simp only [linguaMsg, hh, h2, h1, linguaSkipped_eq, ← hfirst]
   push_cast
   omega
 
-/-- Lingua never reports the line of the call (under the hypotheses of `reported_line_lingua`). -/
-theorem reported_line_lingua_counterexample (src code : Str) (start i nodeLine : Nat) (ts : List Str) (h : Hit)
-    (hembed : slice src start (start + code.length) = code)
-    (hfirst : lineOf src start = nodeLine)
-    (hi : i ≤ (lstrip code).length)
-    (hprep : (linguaPrep code).take i = (lstrip code).take i)
-    (hh : h.line = lineOf (linguaPrep code) i) :
-    (linguaMsg ((nodeLine : Int) - 1) ts h).line ≠ (lineOf src (start + (lead code).length + i) : Int) := by
-  rw [reported_line_lingua src code start i nodeLine ts h hembed hfirst hi hprep hh]
-  omega
-
-/-- non-vacuity (and the simplest witness): `${_('a')}` – the call is on line 1, lingua reports line 0 -/
+/-- non-vacuity: `x\n${\n\n _('a')}` – the expression starts on line 2, two newlines are stripped in front of the
+    code, the call is on line 4 and line 4 is reported -/
 example :
-    let src := ['$', '{', '_', '(', '\'', 'a', '\'', ')', '}']
-    let code := ['_', '(', '\'', 'a', '\'', ')']
-    slice src 2 (2 + code.length) = code ∧ lineOf src 2 = 1 ∧ 0 ≤ (lstrip code).length ∧
-    (linguaPrep code).take 0 = (lstrip code).take 0 ∧
-    (linguaMsg ((1 : Nat) - 1 : Int) [] ⟨lineOf (linguaPrep code) 0, [], [], []⟩).line = 0 := by
+    let src := ['x', '\n', '$', '{', '\n', '\n', ' ', '_', '(', '\'', 'a', '\'', ')', '}']
+    let code := ['\n', '\n', ' ', '_', '(', '\'', 'a', '\'', ')']
+    slice src 4 (4 + code.length) = code ∧ lineOf src 4 = 2 ∧ 0 ≤ (lstrip code).length ∧
+    (linguaPrep code).take 0 = (lstrip code).take 0 ∧ (lead code).length = 3 ∧
+    (linguaMsg ((2 : Nat) - 1 : Int) (linguaSkipped code) [] ⟨lineOf (linguaPrep code) 0, [], [], []⟩).line = 4 ∧
+    lineOf src (4 + 3 + 0) = 4 := by
   decide
 
 /-! ## the translator-comment window -/
